@@ -63,7 +63,9 @@ T_Block == /\ IsEvent("block")
               \* lock - async-lock wakes one waiter per release and lets a waiter that has been starved for
               \* 500us of wall-clock time go first, so a waiter may stay suspended although the lock is free
               \* (quiescence is strict again: there no waiter may be left behind)
-              /\ IF yl \/ ~CanStep(t) \/ (t \in Tasker /\ cli[t].stage = "reglock") THEN TRUE
+              \* (`woken`: the task returned Pending with its own wake-up already pending - a cooperative yield inside the
+              \* library; it stays runnable, so nothing is claimed about what it waits for)
+              /\ IF yl \/ ("woken" \in DOMAIN E /\ E.woken) \/ ~CanStep(t) \/ (t \in Tasker /\ cli[t].stage = "reglock") THEN TRUE
                  ELSE IF t \in Client THEN G("blk." \o cli[t].stage, FALSE)
                  ELSE IF t \in DOMAIN tmr THEN G("blk.timer", FALSE)
                  ELSE IF act[t].pc = "idle" THEN G(IdleReason("blk.loop.", t), FALSE)
